@@ -84,6 +84,9 @@ def selections(tier, seed):
     fails, samples, evals, nontriv = [], [], 0, 0
     for i in range(n):
         pages = C05._gen_dir(rng)
+        # lines that end in blanks, and a continuation line made of blanks only (both are valid items)
+        pages["blanks.zo"] = ("# Blanks\n\n- 240512#A1 Headline that ends in blanks   \n  * a bullet that ends in a blank \n  * last bullet\n"
+                              "o P2 240512#A2 second item\n   \n  * bullet after a blank-only continuation line\n\n")
         with Lab() as lab:
             for rel, t in pages.items():
                 lab.write(rel, t)
